@@ -545,6 +545,23 @@ def build_topdown_gt(scene, skeletons, *, sc, os_c, ms_c, max_hw, batch_size, re
     return p, cnet
 
 
+def build_topdown_gtc(scene, skeletons, *, si, os_i, ms_i, crop_hw, max_hw, batch_size, refinement,
+                      threshold=0.2, sigma=1.5, is_rgb=True):
+    """REAL TopDownPredictor with a centred-instance model only: CentroidCrop(use_gt_centroids=True)
+    (crops around the ground-truth centroids) + FindInstancePeaks around the crop-stage stub."""
+    from sleap_nn.inference.predictors import TopDownPredictor
+    icfg = mk_config("centered_instance", scale=si, max_stride=ms_i, output_stride=os_i,
+                     max_height=max_hw[0], max_width=max_hw[1], crop_hw=list(crop_hw), sigma=sigma, is_rgb=is_rgb)
+    inet = IdealNet(scene, "centered", os_i, sigma=sigma, scale=si, max_hw=max_hw)
+    p = TopDownPredictor(centroid_config=None, confmap_config=icfg, centroid_model=None, confmap_model=inet,
+                         centroid_backbone_type=None, centered_instance_backbone_type="unet",
+                         skeletons=skeletons, peak_threshold=threshold, integral_refinement=refinement,
+                         batch_size=batch_size, max_instances=None, preprocess_config=None)
+    p._initialize_inference_model()
+    inet.attach(p.inference_model.instance_peaks)
+    return p, inet
+
+
 @contextlib.contextmanager
 def from_numpy_shim():
     """Environment shim: sleap-io 0.9.2 renamed the keyword arguments of `PredictedInstance.from_numpy`
